@@ -22,4 +22,10 @@ def instances():
     for n in (1, 2, 3, 4, 5):
         out.append(Inst(id="c10.b64.%d" % n, props=["C10", "C01"], harness="h_b64.cpp", entry="c10_b64", tus=["blocc/builtin/base64.cpp"], defs=["VX_LEN=%d" % n],
                         unwind=8, timeout=600, tier="quick" if n <= 3 else "thorough", bounds="every byte string of %d bytes" % n, inputs="the bytes"))
+    SH = ["D", "DD", "D.D", "DeSXX", "D.DeSXX", "DeSXXX", "D.DDeSXX"]
+    for k, sh in enumerate(SH):
+        out.append(Inst(id="c12.numconst.%d" % k, props=["C12", "C01"], harness="h_c12num.cpp", entry="c12_numconst", tus=CORE_TUS + ["blocc/expression_numeric.cpp"],
+                        defs=["VX_SHAPE=%d" % k], stubs=FMT_STUBS + ["_ZN4bloc5Value15readableNumericB5cxx11ERd"], unwind=18, timeout=300,
+                        bounds="NumericExpression::unparse with the %%.16g rendering cut: every text of shape %s (D digit, S sign, X exponent digit) that %%.16g can print, leading digit 1..4" % sh,
+                        inputs="digits, exponent sign"))
     return out
